@@ -55,6 +55,7 @@ class Resolver:
         self.params = set(params)
         self.rd = cfg.reaching()
         self._memo: Dict[Tuple[int, int], ast.AST] = {}
+        self.inliner = None  # optional callback(resolved call, raw call) -> term | None  (set by the function view)
 
     # ------------------------------------------------------------------ public
     def resolve(self, expr: ast.AST, at: int, depth: int = 0, _stack: Optional[Set] = None) -> ast.AST:
@@ -94,6 +95,10 @@ class Resolver:
                     field,
                     [self._res(v, at, depth + 1, stack, bound) if isinstance(v, ast.AST) and not isinstance(v, (ast.cmpop,)) else v for v in value],
                 )
+        if isinstance(new, ast.Call) and self.inliner is not None and not is_sym(new):
+            inl = self.inliner(new, e)
+            if inl is not None:
+                return inl
         return new
 
     def _index_loop_rewrite(self, e: ast.Subscript, at, depth, stack, bound) -> Optional[ast.AST]:
@@ -254,7 +259,10 @@ class Resolver:
                 i = names.index(name)
                 if isinstance(value, (ast.Tuple, ast.List)) and len(value.elts) == len(target.elts):
                     return self._res(value.elts[i], d, depth + 1, stack, {})
-                return sym("unpack", self._res(value, d, depth + 1, stack, {}), ast.Constant(value=i))
+                whole = self._res(value, d, depth + 1, stack, {})
+                if isinstance(whole, (ast.Tuple, ast.List)) and len(whole.elts) == len(target.elts):
+                    return whole.elts[i]  # e.g. a helper call that was looked through
+                return sym("unpack", whole, ast.Constant(value=i))
         return sym("def", ast.Constant(value=d))
 
     @staticmethod
